@@ -274,7 +274,7 @@ Section Windows.
         pose proof (IH st2 Hinv2 Hmu) as Hst'.
         rewrite Hg2 in Hst'. destruct Hst' as (st' & Hw & Hq' & Hi').
         exists st'. split; [|split; [|exact Hi']].
-        * fold st1 st2. rewrite Ht. rewrite Hw. f_equal. f_equal. f_equal. rewrite Hq2. unfold q. lia.
+        * rewrite Hw. f_equal. f_equal. f_equal. rewrite Hq2. unfold q. lia.
         * rewrite Hq', Hq2. unfold q. lia.
     - (* no marker behind the position *)
       set (st1 := if Nat.ltb (st_pos st + overlap) (st_used st)
